@@ -234,6 +234,12 @@ def main(prop: str, tier: str) -> int:
         replayed += sp.get('behaviours', 0)
     except ImportError:
         pass
+    from checks import metavalue
+    mv = metavalue.run(rep, tier, {'readback', 'reparse'})
+    parts['meta_values'] = {k: v for k, v in mv.items() if k != 'sample'}
+    states += mv.get('states', 0)
+    transitions += mv.get('transitions', 0)
+    replayed += mv.get('behaviours', 0)
     rep.cov.update({'states': states or 1, 'transitions': transitions or 1, 'traces_validated_against_impl': replayed,
                     'parts': parts, 'samples': samples, 'exhaustive': True})
     rep.assumptions += ['two abstract numbers / currencies / dates / labels stand for all values',
